@@ -1,0 +1,62 @@
+//go:build verif
+
+package logic
+
+import "sort"
+
+// Verification hooks (build tag verif, add-only): a read-only snapshot of the relay pull / relay push
+// bookkeeping of a Group, taken under the group's mutex, for the harness of /verif (property C17).
+
+type VerifPushState struct {
+	Url        string
+	IsPushing  bool
+	HasSession bool
+}
+
+type VerifRelayState struct {
+	StaticEnable     bool
+	ApiEnable        bool
+	PullUrl          string
+	PullRetryNum     int
+	AutoStopMs       int
+	StartCount       int
+	LastHasOutTs     int64
+	IsSessionPulling bool
+	PullingSessionUk string
+	PullSessionUk    string // unique key of the attached pull session, "" if none
+	HasInSession     bool
+	HasOutSession    bool
+	PushEnable       bool
+	Push             []VerifPushState // sorted by url
+}
+
+func (group *Group) VerifRelayState() VerifRelayState {
+	group.mutex.Lock()
+	defer group.mutex.Unlock()
+	p := group.pullProxy
+	st := VerifRelayState{
+		StaticEnable:     p.staticRelayPullEnable,
+		ApiEnable:        p.apiEnable,
+		PullUrl:          p.pullUrl,
+		PullRetryNum:     p.pullRetryNum,
+		AutoStopMs:       p.autoStopPullAfterNoOutMs,
+		StartCount:       p.startCount,
+		LastHasOutTs:     p.lastHasOutTs,
+		IsSessionPulling: p.isSessionPulling,
+		PullingSessionUk: p.pullingSessionUk,
+		PullSessionUk:    group.pullSessionUniqueKey(),
+		HasInSession:     group.hasInSession(),
+		HasOutSession:    group.hasOutSession(),
+		PushEnable:       group.pushEnable,
+	}
+	for url, v := range group.url2PushProxy {
+		st.Push = append(st.Push, VerifPushState{Url: url, IsPushing: v.isPushing, HasSession: v.pushSession != nil})
+	}
+	sort.Slice(st.Push, func(i, j int) bool { return st.Push[i].Url < st.Push[j].Url })
+	return st
+}
+
+// VerifStaticRelayPullDefaults returns the retry budget and the auto-stop setting a static relay pull runs with.
+func VerifStaticRelayPullDefaults() (retryNum int, autoStopMs int) {
+	return staticRelayPullRetryNum, staticRelayPullAutoStopPullAfterNoOutMs
+}
